@@ -21,6 +21,7 @@ RULE = (
     "the case."
 )
 ASSUMPTIONS = [
+    'an operation refused with ValueError (unrelated units) must leave both operands as they were: each still resolves to its own value',
     "CSS absolute ratios: 1in = ppi user units = 2.54cm = 25.4mm, 1pt = 4/3, 1pc = 16, px = unitless = 1",
     "resolvable families for arithmetic without context: {'', px, pt, pc}, {in, cm, mm}, identical units otherwise; "
     "across families the library may raise ValueError but must not return a number",
